@@ -190,6 +190,7 @@ pub fn run_bar(c: &BarCase) -> CaseResult {
                 println_while_empty = true;
             }
             v.label_if(painted.iter().any(|l| console::measure_text_width(l) > cols), "wrap");
+            v.label_if(painted.iter().any(|l| l.len() > 65_535), "line_of_more_than_65535_columns_that_fits");
             v.label_if(painted.iter().any(|l| { let w = console::measure_text_width(l); w > 0 && w % cols == 0 }), "exact_multiple_of_width");
             v.label_if(painted.first().map_or(false, |l| console::measure_text_width(l) == 0) && painted.len() >= 2, "empty_first_line_frame");
             v.label_if(painted.is_empty(), "clear");
@@ -557,7 +558,28 @@ pub fn property() -> Property {
             rule: "one bar on a VTerm of 1..=12 rows x 1..=40 (thorough 200) columns with a random simple template; 0-24 (thorough 40) ops from tick/inc/set_position/set_message/set_prefix/set_style/set_length/println/suspend/reset/finish*/abandon* with texts that are empty, zero-width, multi-line and around multiples of the width; after every flush and after every op the screen must equal printed lines ++ frame and the cursor must be on a fresh line; non-trivial = two painted frames of different height, or a text-only draw followed by a non-empty frame",
             // (one template in six shows a spinner: part `history` only, where every operation is 2 ms apart)
             strategy: |t| {
-                (case_strategy(t), 0u8..6, any::<bool>())
+                // (one case in sixty: a terminal of several thousand columns and a message of more than 65535
+                // columns, which still fits its 12 rows - shown, replaced by a short one, cleared)
+                let huge = (4000u16..7000, 65_530usize..72_000, 0u8..3).prop_map(|(wide, n, end)| BarCase {
+                    rows: 12,
+                    cols: 1,
+                    len: Some(9),
+                    tpl: STpl { lines: vec![vec![SPart::Msg, SPart::Lit("|".into()), SPart::Pos]] },
+                    ops: vec![
+                        BOp::SetMessage("x".repeat(n)),
+                        BOp::Tick,
+                        BOp::SetMessage("short".into()),
+                        BOp::Tick,
+                        BOp::SetMessage("y".repeat(n + 7)),
+                        match end {
+                            0 => BOp::FinishAndClear,
+                            1 => BOp::Println("done".into()),
+                            _ => BOp::Inc(1),
+                        },
+                    ],
+                    wide,
+                });
+                let usual = (case_strategy(t), 0u8..6, any::<bool>())
                     .prop_map(|(mut c, k, front)| {
                         if k == 0 && !c.tpl.lines.is_empty() {
                             let l = &mut c.tpl.lines[0];
@@ -568,13 +590,13 @@ pub fn property() -> Property {
                             }
                         }
                         c
-                    })
-                    .boxed()
+                    });
+                prop_oneof![59 => usual, 1 => huge].boxed()
             },
             cases: |t| t.pick(12_000, 800_000),
             run: run_bar,
             signature,
-            essential: &["shrink", "grow", "wrap", "exact_multiple_of_width", "empty_first_line_frame", "text_only_draw", "frame_after_text_only_draw", "clear", "reset", "log_wraps"],
+            essential: &["shrink", "grow", "wrap", "exact_multiple_of_width", "empty_first_line_frame", "text_only_draw", "frame_after_text_only_draw", "clear", "reset", "log_wraps", "line_of_more_than_65535_columns_that_fits"],
             workers: w,
             decode: Some(decode_case),
         }),
